@@ -188,6 +188,33 @@ def envPrepend (append fwd : Bool) (var value delim : Str) (env : Env) : Outcome
   | none, .error => .runtimeError
   | none, _ => .ok env
   | some value, _ =>
+    -- a reference still in the value (it came in with the value of a variable) is expanded here, in the value;
+    -- the elements the list already has are stored as they are (repair of D123)
+    let value := interp env (value.length + 1) value
+    let npath := applyL append fwd (split delim value) opath
+    let s := join delim npath
+    let s := if pre && !startsWith s delim then delim ++ s else s
+    let s := if app && !endsWith s delim then s ++ delim else s
+    .ok (env.set var s)
+
+/-- `execute_envPrepend` of the pinned tree as far as D123 goes: the interpolation of `${K}` ran over the whole new
+list when the variable was stored (`setEnv(..., interpolateEnv=True)`), so elements that were already there were
+rewritten, and not over the value, so a value with a nested reference was added expanded but removed unexpanded -/
+def envPrependPinned (append fwd : Bool) (var value delim : Str) (env : Env) : Outcome :=
+  let opath := (env.get var).getD []
+  let pre := startsWith value delim
+  let value := if pre then value.drop delim.length else value
+  let app := endsWith value delim
+  let value := if app then value.take (value.length - delim.length) else value
+  let opath := (split delim opath).filter (fun el => el ≠ [])
+  let value? : Option Str := match expand env value with
+    | .value v => some v
+    | .skip => none
+    | .error => if fwd then none else some value
+  match value?, expand env value with
+  | none, .error => .runtimeError
+  | none, _ => .ok env
+  | some value, _ =>
     let npath := applyL append fwd (split delim value) opath
     let s := join delim npath
     let s := if pre && !startsWith s delim then delim ++ s else s
